@@ -2,8 +2,11 @@ package props
 
 import (
 	"fmt"
+	"go/token"
 	"go/types"
+	"os"
 	"regexp"
+	"sort"
 	"strings"
 
 	"kverif/core"
@@ -21,12 +24,14 @@ func init() {
 			"(3) TopologyGroup.Get dispatches every TopologyType and panics otherwise; " +
 			"(4) spread: a domain enters validDomains / is returned only under count(+1 if self-selecting) − min ≤ maxSkew (hostname: min taken as 0); domainMinCount counts only domains the pod can use and forces min to 0 when those are fewer than minDomains; " +
 			"(5) anti-affinity: only domains with no matching pod are offered (count == 0 / member of emptyDomains); affinity: only domains with a matching pod, or a bootstrap domain when the pod selects itself and no compatible domain has a match — and always a domain the pod's own requirements allow; " +
-			"(6) relaxation and re-queueing refresh the topology (Update + updateCachedPodData) before the pod is tried again; inverse anti-affinities are seeded from every anti-affinity pod of the cluster that is not excluded.",
+			"(6) relaxation and re-queueing refresh the topology (Update + updateCachedPodData) before the pod is tried again; inverse anti-affinities are seeded from every anti-affinity pod of the cluster that is not excluded; " +
+			"(7) what Record counted during the pass stays counted (countDomains, the only other source of counts, sees bound pods only): the group registries of a Topology (topologyGroups, inverseTopologyGroups) only grow — assigned under construction, entries inserted only where a lookup of the same hash has just missed, never deleted, cleared, replaced or handed to code that writes into them; domainGroups is not written once built; Scheduler / NodeClaim / ExistingNode get their *Topology at construction only; inside a group a count is only incremented or zero-initialised for an unknown domain, a domain is declared empty only where it was unknown, domains are dropped by TopologyGroup.Unregister alone (reached from Topology.Unregister alone, which no scheduling code calls), and no group is overwritten as a whole.",
 		NotCovered: []string{
 			"that domain counts are right (seeding from the API, exclusion, inclusion policies, matchLabelKeys) — value-level",
 			"'for every domain the node could end up in' when requirements have not collapsed to one domain",
 			"queue-order and relaxation-order effects between pods of a batch",
 			"TopologyNodeFilter.Matches and label-selector semantics",
+			"ownership bookkeeping of a group (TopologyGroup.owners: which pods RemoveOwner / AddOwner touch) and writes to a group's other fields; aliasing of the registries through values the checker does not follow (a map stored into another struct field, returned from a function, or passed through an interface)",
 		},
 		Rules: c02Rules,
 	})
@@ -35,6 +40,10 @@ func init() {
 func c02Rules(tier string) []Rule {
 	rules := c02RulesBase(tier)
 	// a pod update always refreshes the anti-affinity index, also when the node usage update fails (node not tracked yet)
+	// (7) what was counted during the pass stays counted: the registries only grow, the counts only go up
+	rules = append(rules,
+		core.Custom{ID: "C02.WMC1", Kind: "WMC", Run: c02RegistryGrowOnly},
+		core.Custom{ID: "C02.WMC2", Kind: "WMC", Run: c02GroupCountsKept})
 	rules = append(rules, POST{ID: "C02.AAIDX1", Fn: "(*state.Cluster).UpdatePod", From: "", Must: []string{`^call \(\*state\.Cluster\)\.updatePodAntiAffinities\(\$0, \$2\)$`}, Note: "every path through UpdatePod updates the anti-affinity index"})
 	return rules
 }
@@ -400,4 +409,606 @@ func c02MinCount(w *core.World, id string) []core.Result {
 		out = append(out, core.OK(id, "PROV", construct, inc, "count over pod-usable domains; fewer than minDomains ⇒ 0; hostname ⇒ 0"))
 	}
 	return out
+}
+
+// ---------------------------------------------------------------------------------------------------------------------
+// (7) what has been counted during a pass stays counted.
+//
+// Record adds a placement to the counts of the groups it finds in Topology.topologyGroups / inverseTopologyGroups, and
+// admission reads the same groups again for every later pod. countDomains — the only other source of counts — sees the
+// pods bound in the API, never the placements of the pass. So a group that leaves the registry (or is replaced by a
+// freshly built one under the same hash), and a count that is reset inside a group, forget every placement made so far:
+// the next pod is admitted against zeros. The facts decided:
+//
+//	C02.WMC1  the registries only grow: the three map fields of Topology are assigned in a struct under construction only;
+//	          nobody deletes from / clears them or hands them to code that writes into them; an entry is written only
+//	          where a lookup of the same map with the same key has just missed (insert-if-absent, never replace);
+//	          domainGroups and the domain sets in it are not written at all once the Topology exists.
+//	C02.WMC2  inside a group: `domains` / `emptyDomains` are assigned in a group under construction only; a count is only
+//	          incremented, or set to 0 where a lookup of that domain has just missed; a domain is deleted by
+//	          TopologyGroup.Unregister alone (reached from Topology.Unregister alone, which nothing calls during a pass);
+//	          a domain is declared empty only where it was unknown; no group is overwritten as a whole.
+//
+// Both rules look at every function of the module, alias the maps through locals / captured variables / phis, and follow
+// a map handed to a karpenter function that writes into its parameter (core.ParamWrites).
+
+type c02Write struct {
+	in      ssa.Instruction
+	key     string    // "<struct>.<field>"
+	op      string    // assign | update | delete | clear | call:<callee> | handoff:<callee>
+	obj     ssa.Value // the map / set that is written (the field address for assign)
+	through bool      // an element reached by indexing the field is written, not the field's own map
+	fresh   bool      // assign: the struct is a literal under construction
+}
+
+var c02MutatorRe = regexp.MustCompile(`^(maps\.(Copy|DeleteFunc|Insert)(\[.*\])?|\(apim/util/sets\.Set\[.*\]\)\.(Insert|Delete|Clear|PopAny))$`)
+
+func c02StructShort(t types.Type) string {
+	n := core.NamedOf(t)
+	if n == nil || n.Obj().Pkg() == nil {
+		return ""
+	}
+	return core.Short(n.Obj().Pkg().Path() + "." + n.Obj().Name())
+}
+
+// c02StoresTo: the stores to a local, in its function and in the closures that capture it.
+func c02StoresTo(a ssa.Value) []*ssa.Store {
+	var out []*ssa.Store
+	seen := map[ssa.Value]bool{}
+	var visit func(v ssa.Value)
+	visit = func(v ssa.Value) {
+		if seen[v] || v.Referrers() == nil {
+			return
+		}
+		seen[v] = true
+		for _, r := range *v.Referrers() {
+			switch x := r.(type) {
+			case *ssa.Store:
+				if x.Addr == v {
+					out = append(out, x)
+				}
+			case *ssa.MakeClosure:
+				if f, ok := x.Fn.(*ssa.Function); ok {
+					for i, b := range x.Bindings {
+						if b == v && i < len(f.FreeVars) {
+							visit(f.FreeVars[i])
+						}
+					}
+				}
+			}
+		}
+	}
+	visit(a)
+	return out
+}
+
+// c02FieldOf: v is (an alias of) the value held in one of the wanted struct fields, or — through=true — an element
+// reached from it by map lookup / range / indexing. Loads, locals (any store), captured variables, conversions and phis
+// (any operand) are transparent. Another struct's field ends the walk: what hangs off a *TopologyGroup found in the
+// registry is that group's state, not the registry's.
+func c02FieldOf(w *core.World, v ssa.Value, want map[string]bool) (key string, through, ok bool) {
+	seen := map[ssa.Value]bool{}
+	var walk func(v ssa.Value, thr bool, depth int) (string, bool, bool)
+	walk = func(v ssa.Value, thr bool, depth int) (string, bool, bool) {
+		if v == nil || depth > 24 || seen[v] {
+			return "", false, false
+		}
+		seen[v] = true
+		switch x := v.(type) {
+		case *ssa.FieldAddr:
+			if k := c02StructShort(x.X.Type()) + "." + core.FieldNameOf(x); want[k] {
+				return k, thr, true
+			}
+		case *ssa.Field:
+			if n := core.NamedOf(x.X.Type()); n != nil {
+				if st, isSt := n.Underlying().(*types.Struct); isSt && x.Field < st.NumFields() {
+					if k := c02StructShort(x.X.Type()) + "." + st.Field(x.Field).Name(); want[k] {
+						return k, thr, true
+					}
+				}
+			}
+		case *ssa.UnOp:
+			if x.Op != token.MUL {
+				return "", false, false
+			}
+			src := x.X
+			if fv, isFV := src.(*ssa.FreeVar); isFV {
+				if b := w.FreeVarBinding(fv); b != nil {
+					src = b
+				}
+			}
+			if a, isAlloc := src.(*ssa.Alloc); isAlloc {
+				for _, st := range c02StoresTo(a) {
+					if k, t, ok := walk(st.Val, thr, depth+1); ok {
+						return k, t, true
+					}
+				}
+				return "", false, false
+			}
+			return walk(src, thr, depth+1)
+		case *ssa.FreeVar:
+			return walk(w.FreeVarBinding(x), thr, depth+1)
+		case *ssa.ChangeType:
+			return walk(x.X, thr, depth+1)
+		case *ssa.Convert:
+			return walk(x.X, thr, depth+1)
+		case *ssa.MakeInterface:
+			return walk(x.X, thr, depth+1)
+		case *ssa.Phi:
+			for _, e := range x.Edges {
+				if k, t, ok := walk(e, thr, depth+1); ok {
+					return k, t, true
+				}
+			}
+		case *ssa.Lookup:
+			return walk(x.X, true, depth+1)
+		case *ssa.Index:
+			return walk(x.X, true, depth+1)
+		case *ssa.IndexAddr:
+			return walk(x.X, true, depth+1)
+		case *ssa.Slice:
+			return walk(x.X, thr, depth+1)
+		case *ssa.Extract:
+			return walk(x.Tuple, thr, depth+1)
+		case *ssa.Next:
+			if r, isRange := x.Iter.(*ssa.Range); isRange {
+				return walk(r.X, true, depth+1)
+			}
+		}
+		return "", false, false
+	}
+	return walk(v, false, 0)
+}
+
+// c02Writes lists every write to (or through) the wanted fields in the module's own code.
+func c02Writes(w *core.World, want map[string]bool) []c02Write {
+	var out []c02Write
+	defer func() {
+		if os.Getenv("KVERIF_DEBUG") != "" {
+			for _, x := range out {
+				fmt.Fprintf(os.Stderr, "DEBUG c02Writes %s %s through=%v fresh=%v %s: %s\n", x.key, x.op, x.through, x.fresh, core.FnName(x.in.Parent()), clipStr(w.RenderInstr(x.in), 110))
+			}
+		}
+	}()
+	isRef := func(t types.Type) bool {
+		switch t.Underlying().(type) {
+		case *types.Map, *types.Slice:
+			return true
+		}
+		return false
+	}
+	for _, fn := range w.Fns {
+		if core.IsTestSupport(fn) {
+			continue
+		}
+		if fn.Synthetic != "" && !strings.Contains(fn.Synthetic, "instance") && fn.Parent() == nil {
+			continue // wrappers and thunks repeat the sites of the wrapped function
+		}
+		for _, b := range fn.Blocks {
+			for _, in := range b.Instrs {
+				switch x := in.(type) {
+				case *ssa.Store:
+					switch a := x.Addr.(type) {
+					case *ssa.FieldAddr:
+						if k := c02StructShort(a.X.Type()) + "." + core.FieldNameOf(a); want[k] {
+							fresh := false
+							if root, _ := w.AddrRoot(a); root != nil {
+								if al, isAlloc := root.(*ssa.Alloc); isAlloc {
+									if p, isPtr := al.Type().Underlying().(*types.Pointer); isPtr {
+										if _, isSt := p.Elem().Underlying().(*types.Struct); isSt {
+											fresh = true
+										}
+									}
+								}
+							}
+							out = append(out, c02Write{in: in, key: k, op: "assign", obj: a, fresh: fresh})
+						}
+					case *ssa.IndexAddr:
+						if k, _, ok := c02FieldOf(w, a.X, want); ok {
+							out = append(out, c02Write{in: in, key: k, op: "update", obj: a.X, through: true})
+						}
+					}
+				case *ssa.MapUpdate:
+					if k, thr, ok := c02FieldOf(w, x.Map, want); ok {
+						out = append(out, c02Write{in: in, key: k, op: "update", obj: x.Map, through: thr})
+					}
+				case ssa.CallInstruction:
+					c := x.Common()
+					if len(c.Args) == 0 || c.IsInvoke() {
+						continue
+					}
+					name := w.CalleeName(c)
+					if bi, isB := c.Value.(*ssa.Builtin); isB {
+						if (bi.Name() == "delete" || bi.Name() == "clear") && isRef(c.Args[0].Type()) {
+							if k, thr, ok := c02FieldOf(w, c.Args[0], want); ok {
+								out = append(out, c02Write{in: in, key: k, op: bi.Name(), obj: c.Args[0], through: thr})
+							}
+						}
+						continue
+					}
+					if c02MutatorRe.MatchString(name) {
+						if k, thr, ok := c02FieldOf(w, c.Args[0], want); ok {
+							out = append(out, c02Write{in: in, key: k, op: "call:" + name, obj: c.Args[0], through: thr})
+						}
+						continue
+					}
+					if callee := c.StaticCallee(); callee != nil && core.IsKarpenterFn(callee) {
+						for j := range w.ParamWrites(callee) {
+							if j >= len(c.Args) || !isRef(c.Args[j].Type()) {
+								continue
+							}
+							if k, thr, ok := c02FieldOf(w, c.Args[j], want); ok {
+								out = append(out, c02Write{in: in, key: k, op: "handoff:" + name, obj: c.Args[j], through: thr})
+							}
+						}
+					}
+				}
+			}
+		}
+	}
+	return out
+}
+
+// c02OnMiss: `in` runs only where a comma-ok lookup of the map m has just missed — and, when key is given and the lookup
+// is visible in the same function, it looked up that very key. The test may sit in an unexported helper (the engine's
+// see-through), and `in` may sit in an unexported helper all of whose calls are made on such a miss.
+// field is the field name m is held in (for the literal `-<x>.<field>[<k>]#1`). Returns the number of guarded sites bound
+// (1, or the number of guarded calls of the helper the write sits in); 0 with the reason when the write is not guarded.
+func c02OnMiss(w *core.World, in ssa.Instruction, m, key ssa.Value, field string) (int, string) {
+	fn := in.Parent()
+	mr := w.Render(m)
+	guards, keyOK := 0, false
+	other := ""
+	for _, b := range fn.Blocks {
+		if len(b.Instrs) == 0 || len(b.Succs) != 2 {
+			continue
+		}
+		ifi, isIf := b.Instrs[len(b.Instrs)-1].(*ssa.If)
+		if !isIf {
+			continue
+		}
+		cond, neg := ifi.Cond, false
+		for {
+			u, isNot := cond.(*ssa.UnOp)
+			if !isNot || u.Op != token.NOT {
+				break
+			}
+			neg = !neg
+			cond = u.X
+		}
+		ex, isEx := cond.(*ssa.Extract)
+		if !isEx || ex.Index != 1 {
+			continue
+		}
+		lk, isLk := ex.Tuple.(*ssa.Lookup)
+		if !isLk || !lk.CommaOk || w.Render(lk.X) != mr {
+			continue
+		}
+		miss := 1
+		if neg {
+			miss = 0
+		}
+		// with the miss edge removed, `in` must be unreachable
+		c := core.NewCut()
+		c.Edges[core.EdgeKey{From: b, Succ: miss}] = true
+		if core.InstrReachable(in, c) {
+			continue
+		}
+		guards++
+		if key == nil || lk.Index == key || w.Render(lk.Index) == w.Render(key) {
+			keyOK = true
+		} else {
+			other = clipStr(w.RenderD(lk.Index, 4), 50)
+		}
+	}
+	if guards > 0 {
+		if keyOK {
+			return 1, ""
+		}
+		return 0, "the lookup that missed asked for another key (`" + other + "`)"
+	}
+	lenient := G(`-^.*\.` + regexp.QuoteMeta(field) + `\[.*\]#1$`)
+	if w.GuardedBy(in, lenient) {
+		return 1, ""
+	}
+	// the write was extracted: every call of the unexported function it sits in is made on a miss
+	root := core.RootFn(fn)
+	if root.Object() != nil && !root.Object().Exported() {
+		calls, all := 0, true
+		for _, caller := range w.CG().CallersOf(root) {
+			if core.IsTestSupport(caller) {
+				continue
+			}
+			for _, b := range caller.Blocks {
+				for _, ci := range b.Instrs {
+					call, isCall := ci.(ssa.CallInstruction)
+					if !isCall || call.Common().StaticCallee() != root {
+						continue
+					}
+					calls++
+					all = all && w.GuardedBy(ci, lenient)
+				}
+			}
+		}
+		if calls > 0 && all {
+			return calls, ""
+		}
+	}
+	return 0, "it is not confined to the path on which a lookup of that map has just missed"
+}
+
+func c02FnPos(w *core.World, name string) string {
+	if f := w.Fn(name); f != nil {
+		return w.Pos(f.Pos())
+	}
+	return ""
+}
+
+// c02ActsFor: fn is one of the allowed functions, or an unexported function called by allowed functions only.
+func c02ActsFor(w *core.World, fn *ssa.Function, allowed map[string]bool, depth int) bool {
+	root := core.RootFn(fn)
+	if allowed[core.FnName(root)] {
+		return true
+	}
+	if depth > 2 || root.Object() == nil || root.Object().Exported() {
+		return false
+	}
+	n := 0
+	for _, c := range w.CG().CallersOf(root) {
+		if core.IsTestSupport(c) {
+			continue
+		}
+		n++
+		if !c02ActsFor(w, c, allowed, depth+1) {
+			return false
+		}
+	}
+	return n > 0
+}
+
+// C02.WMC1 — the registries of a Topology only grow.
+func c02RegistryGrowOnly(w *core.World, id string) []core.Result {
+	const typ = "sched.Topology"
+	fields := []string{"topologyGroups", "inverseTopologyGroups", "domainGroups"}
+	have, _ := w.StructFields(typ)
+	want := map[string]bool{}
+	for _, f := range fields {
+		found := false
+		for _, h := range have {
+			found = found || h == f
+		}
+		if !found {
+			return []core.Result{core.Anchor(id, "WMC", typ+"."+f)}
+		}
+		want[typ+"."+f] = true
+	}
+	construct := "WMC:" + typ + ".{" + strings.Join(fields, ",") + "}"
+	var out []core.Result
+	built, inserts := map[string]int{}, map[string]int{}
+	var facts []string
+	for _, wr := range c02Writes(w, want) {
+		field := strings.TrimPrefix(wr.key, typ+".")
+		where := core.FnName(core.RootFn(wr.in.Parent()))
+		r := clipStr(w.RenderInstr(wr.in), 120)
+		bad := func(msg string) {
+			out = append(out, core.Bad(id, "WMC", construct+"@"+where, w.InstrPos(wr.in), msg+" — `"+r+"` in "+where))
+		}
+		switch {
+		case wr.op == "assign" && wr.fresh:
+			built[field]++
+		case wr.op == "assign":
+			bad("Topology." + field + " is replaced on a live Topology: the groups (and the placements Record counted into them during this pass) that the old map held are gone for every later admission")
+		case wr.op == "delete" || wr.op == "clear" || strings.HasPrefix(wr.op, "call:maps.DeleteFunc") || strings.HasSuffix(wr.op, ".Delete") || strings.HasSuffix(wr.op, ".Clear") || strings.HasSuffix(wr.op, ".PopAny"):
+			if field == "domainGroups" {
+				bad("an entry is removed from Topology.domainGroups (the universe of domains groups are built from) after construction")
+			} else {
+				bad("an entry is removed from Topology." + field + ": a group that leaves the registry takes the placements recorded into it during this pass with it — it is rebuilt by countDomains from the pods bound in the API only, so later pods are admitted against zero counts")
+			}
+		case strings.HasPrefix(wr.op, "handoff:") || strings.HasPrefix(wr.op, "call:"):
+			bad("Topology." + field + " is handed to `" + wr.op[strings.Index(wr.op, ":")+1:] + "`, which writes into the map it is given: not an audited insert-if-absent")
+		case wr.op == "update" && (field == "domainGroups" || wr.through):
+			bad("Topology." + field + " is written after construction (the domain universe is fixed by buildDomainGroups before any group is built from it)")
+		case wr.op == "update":
+			mu := wr.in.(*ssa.MapUpdate)
+			if k, why := c02OnMiss(w, mu, mu.Map, mu.Key, field); k == 0 {
+				inserts[field]++
+				bad("an entry of Topology." + field + " is written where a group with that hash may already be registered (" + why + "): the registered group, with the placements recorded during this pass, is replaced by one that counts only the pods bound in the API")
+			} else {
+				inserts[field] += k
+				facts = append(facts, field+": insert-if-absent in "+where)
+			}
+		default:
+			bad("unclassified write to Topology." + field + " (" + wr.op + ")")
+		}
+	}
+	for _, f := range fields {
+		if built[f] < 1 {
+			out = append(out, core.Bad(id, "WMC", construct, c02FnPos(w, "sched.NewTopology"), "vacuous: no construction site assigns Topology."+f+" (1 confirmed by hand in NewTopology)"))
+		}
+	}
+	for _, f := range fields[:2] {
+		if inserts[f] < 1 {
+			out = append(out, core.Bad(id, "WMC", construct, c02FnPos(w, "sched.NewTopology"), "vacuous: no insert-if-absent into Topology."+f+" found (1 confirmed by hand)"))
+		}
+	}
+	for _, in := range c02WholeStores(w, typ) {
+		out = append(out, core.Bad(id, "WMC", construct+"@"+core.FnName(core.RootFn(in.Parent())), w.InstrPos(in), "a Topology is overwritten as a whole (`"+clipStr(w.RenderInstr(in), 100)+"`): its registries are replaced on a live object"))
+	}
+	// the Topology itself: the scheduler, every in-flight claim and every existing node of a pass hold one and the same
+	// object — the pointer is set where the holder is constructed and nowhere else
+	holders := map[string]bool{"sched.Scheduler.topology": true, "sched.NodeClaim.topology": true, "sched.ExistingNode.topology": true}
+	held := 0
+	for _, wr := range c02Writes(w, holders) {
+		where := core.FnName(core.RootFn(wr.in.Parent()))
+		if wr.op == "assign" && wr.fresh {
+			held++
+			continue
+		}
+		out = append(out, core.Bad(id, "WMC", construct+"@"+where, w.InstrPos(wr.in), "the Topology a pass works on is exchanged on a live "+strings.TrimSuffix(strings.TrimPrefix(wr.key, "sched."), ".topology")+": admission and Record no longer meet in the same registries, the placements counted so far are invisible to what follows — `"+clipStr(w.RenderInstr(wr.in), 120)+"` in "+where))
+	}
+	if held < 3 {
+		out = append(out, core.Bad(id, "WMC", construct, c02FnPos(w, "sched.NewTopology"), fmt.Sprintf("vacuous: %d constructor(s) store the shared *Topology into Scheduler / NodeClaim / ExistingNode, 3 confirmed by hand", held)))
+	}
+	// the domain sets held in domainGroups are filled while the universe is built, by nobody else
+	out = append(out, dropOK(WMC{ID: id, Sink: `^(call|go|defer) \(sched\.TopologyDomainGroup\)\.Insert\(`, Allowed: []string{"sched.buildDomainGroups"}, Required: []string{"sched.buildDomainGroups"}}.Check(w))...)
+	if len(out) == 0 {
+		n := 0
+		for _, f := range fields {
+			n += built[f] + inserts[f]
+		}
+		n += held
+		out = append(out, core.OK(id, "WMC", construct, n, fmt.Sprintf("%d write(s): assigned under construction only; entries inserted on a miss of the same key only; never deleted, cleared, replaced or handed to a writer", n), facts...))
+	}
+	return out
+}
+
+// C02.WMC2 — the counts inside a group only go up.
+func c02GroupCountsKept(w *core.World, id string) []core.Result {
+	const typ = "sched.TopologyGroup"
+	const unreg = "(*sched.TopologyGroup).Unregister"
+	have, _ := w.StructFields(typ)
+	want := map[string]bool{}
+	for _, f := range []string{"domains", "emptyDomains"} {
+		found := false
+		for _, h := range have {
+			found = found || h == f
+		}
+		if !found {
+			return []core.Result{core.Anchor(id, "WMC", typ+"."+f)}
+		}
+		want[typ+"."+f] = true
+	}
+	construct := "WMC:" + typ + ".{domains,emptyDomains}"
+	var out []core.Result
+	n := map[string]int{}
+	for _, wr := range c02Writes(w, want) {
+		field := strings.TrimPrefix(wr.key, typ+".")
+		where := core.FnName(core.RootFn(wr.in.Parent()))
+		r := clipStr(w.RenderInstr(wr.in), 120)
+		bad := func(msg string) {
+			out = append(out, core.Bad(id, "WMC", construct+"@"+where, w.InstrPos(wr.in), msg+" — `"+r+"` in "+where))
+		}
+		switch {
+		case wr.op == "assign" && wr.fresh:
+			n["built:"+field]++
+		case wr.op == "assign":
+			bad("TopologyGroup." + field + " is replaced on a live group: the placements counted into it during this pass are forgotten")
+		case field == "domains" && wr.op == "update" && !wr.through:
+			mu := wr.in.(*ssa.MapUpdate)
+			if c02IsIncrement(w, mu) {
+				n["inc"]++
+				break
+			}
+			zero := false
+			if c, isC := mu.Value.(*ssa.Const); isC && c.Value != nil && c.Value.ExactString() == "0" {
+				zero = true
+			}
+			if !zero {
+				bad("a domain count is overwritten with `" + clipStr(w.RenderD(mu.Value, 4), 50) + "`: counts may only be incremented, or start at 0 for a domain that was unknown")
+			} else if k, why := c02OnMiss(w, mu, mu.Map, mu.Key, "domains"); k == 0 {
+				n["zero-on-miss"]++
+				bad("a domain count is set to 0 where the domain may already be counted (" + why + "): the placements recorded there during this pass are forgotten")
+			} else {
+				n["zero-on-miss"] += k
+			}
+		case field == "domains" && wr.op == "delete" && !wr.through:
+			if c02ActsFor(w, wr.in.Parent(), map[string]bool{unreg: true}, 0) {
+				n["unregister"]++
+			} else {
+				bad("a domain (with its count) is deleted from a group outside TopologyGroup.Unregister")
+			}
+		case field == "emptyDomains" && strings.HasSuffix(wr.op, ".Insert") && !wr.through:
+			if k, why := c02OnMiss(w, wr.in, nil, nil, "domains"); k == 0 {
+				n["empty-on-miss"]++
+				bad("a domain is declared empty where it may already hold counted pods (" + why + "): anti-affinity offers it again")
+			} else {
+				n["empty-on-miss"] += k
+			}
+		case field == "emptyDomains" && strings.HasSuffix(wr.op, ".Delete") && !wr.through:
+			n["nonempty"]++ // a domain stops being empty: Record, Unregister
+		default:
+			bad("unclassified write to TopologyGroup." + field + " (" + wr.op + "): counts may only be incremented, zero-initialised for an unknown domain, or dropped by Unregister")
+		}
+	}
+	// no group is overwritten as a whole
+	for _, in := range c02WholeStores(w, typ) {
+		out = append(out, core.Bad(id, "WMC", construct+"@"+core.FnName(core.RootFn(in.Parent())), w.InstrPos(in), "a TopologyGroup is overwritten as a whole (`"+clipStr(w.RenderInstr(in), 100)+"`): the counts of the overwritten group are forgotten"))
+	}
+	mins := map[string]int{"built:domains": 1, "built:emptyDomains": 1, "inc": 1, "zero-on-miss": 2, "unregister": 1, "empty-on-miss": 2}
+	for _, k := range []string{"built:domains", "built:emptyDomains", "inc", "zero-on-miss", "unregister", "empty-on-miss"} {
+		if min := mins[k]; n[k] < min {
+			out = append(out, core.Bad(id, "WMC", construct, c02FnPos(w, "sched.NewTopologyGroup"), fmt.Sprintf("vacuous: %d site(s) of kind %q found, %d confirmed by hand (idiom not recognised, or the mechanism moved)", n[k], k, min)))
+		}
+	}
+	// who reaches Unregister
+	out = append(out, dropOK(WMC{ID: id, Sink: `^(call|go|defer) \(\*sched\.TopologyGroup\)\.Unregister\(`, Allowed: []string{"(*sched.Topology).Unregister"}, Required: []string{"(*sched.Topology).Unregister"}}.Check(w))...)
+	for _, r := range dropOK(WMC{ID: id, Sink: `^(call|go|defer) \(\*sched\.Topology\)\.Unregister\(`, Allowed: []string{}}.Check(w)) {
+		r.Msg += " — Topology.Unregister drops a domain together with the placements counted in it from every group; no scheduling code calls it today, a new caller has to be audited (is the domain provably without placements of this pass?)"
+		out = append(out, r)
+	}
+	if len(out) == 0 {
+		total := 0
+		var facts []string
+		for k, v := range n {
+			total += v
+			facts = append(facts, fmt.Sprintf("%s ×%d", k, v))
+		}
+		sort.Strings(facts)
+		out = append(out, core.OK(id, "WMC", construct, total, "counts are incremented, zero-initialised on a miss, or dropped by Unregister (which no scheduling code calls); nothing else writes them", facts...))
+	}
+	return out
+}
+
+// c02WholeStores: stores that overwrite a whole struct of the named type through a pointer (`*p = v`), locals excepted.
+func c02WholeStores(w *core.World, typ string) []ssa.Instruction {
+	var out []ssa.Instruction
+	for _, fn := range w.Fns {
+		if core.IsTestSupport(fn) {
+			continue
+		}
+		if fn.Synthetic != "" && !strings.Contains(fn.Synthetic, "instance") && fn.Parent() == nil {
+			continue
+		}
+		for _, b := range fn.Blocks {
+			for _, in := range b.Instrs {
+				st, isSt := in.(*ssa.Store)
+				if !isSt {
+					continue
+				}
+				p, isPtr := st.Addr.Type().Underlying().(*types.Pointer)
+				if !isPtr {
+					continue
+				}
+				if _, isNamed := types.Unalias(p.Elem()).(*types.Named); !isNamed || c02StructShort(p.Elem()) != typ {
+					continue
+				}
+				if _, isAlloc := st.Addr.(*ssa.Alloc); isAlloc {
+					continue // a local of struct type
+				}
+				out = append(out, in)
+			}
+		}
+	}
+	return out
+}
+
+// c02IsIncrement: m[k] = m[k] + <positive constant>
+func c02IsIncrement(w *core.World, mu *ssa.MapUpdate) bool {
+	bo, ok := mu.Value.(*ssa.BinOp)
+	if !ok || bo.Op != token.ADD {
+		return false
+	}
+	x, y := bo.X, bo.Y
+	if _, isC := x.(*ssa.Const); isC {
+		x, y = y, x
+	}
+	c, ok := y.(*ssa.Const)
+	if !ok || c.Value == nil || c.Int64() <= 0 {
+		return false
+	}
+	lk, ok := x.(*ssa.Lookup)
+	if !ok || lk.CommaOk {
+		return false
+	}
+	return (lk.X == mu.Map || w.Render(lk.X) == w.Render(mu.Map)) && (lk.Index == mu.Key || w.Render(lk.Index) == w.Render(mu.Key))
 }
